@@ -111,8 +111,8 @@ class IdealNet(torch.nn.Module):
                     cm = torch.maximum(cm, gaussian_maps([c], H, W, s, sigma))
                 outs.append(cm)
             elif self.kind == "centered":
-                cs_ = self.crop if self.crop else min(H, W)
-                centre = np.array([(cs_ - 1) / 2.0, (cs_ - 1) / 2.0])
+                ch_, cw_ = (self.crop if isinstance(self.crop, (tuple, list)) else (self.crop, self.crop)) if self.crop else (min(H, W), min(H, W))
+                centre = np.array([(cw_ - 1) / 2.0, (ch_ - 1) / 2.0])
                 best, bd = None, None
                 for a_in, a_orig in zip(animals, self.frames[fid]["animals"]):
                     c = self.to_input(f, centroid_of(a_orig, self.anchor)[None])[0]
